@@ -17,7 +17,7 @@ Is(e) == l <= Len(T) /\ Ev.ev = e /\ l' = l + 1
 Upd(f, k, v) == [x \in DOMAIN f \cup {k} |-> IF x = k THEN v ELSE f[x]]
 
 ObsFailing(e) ==
-  {c \in {"TwinAtLastPose", "NoRaise", "SameSupport", "SameAabb", "SameCenter", "SameFirstVertex", "SamePose", "SameQueries"} :
+  {c \in {"TwinAtLastPose", "NoRaise", "SameSupport", "SameAabb", "SameCenter", "SameFirstVertex", "SamePose", "SameQueries", "SameAltQueries"} :
      ~ CASE c = "TwinAtLastPose"  -> e.c \in DOMAIN last /\ e.twinPose = last[e.c]
          [] c = "NoRaise"         -> e.exc = "none"
          [] c = "SameSupport"     -> e.exc = "none" => e.support <= Slack
@@ -25,7 +25,10 @@ ObsFailing(e) ==
          [] c = "SameCenter"      -> e.exc = "none" => e.center <= Slack
          [] c = "SameFirstVertex" -> e.exc = "none" => e.first <= Slack
          [] c = "SamePose"        -> e.exc = "none" => e.pose <= Slack
-         [] c = "SameQueries"     -> e.exc = "none" => e.gjk <= Slack}
+         [] c = "SameQueries"     -> e.exc = "none" => e.gjk <= Slack
+         \* the other algorithms (original / Nesterov / Nesterov-primitives distance, libccd and MPR booleans), both
+         \* argument orders, in ticks of their own tolerance 1e-3*L
+         [] c = "SameAltQueries"  -> e.exc = "none" => e.alt <= Slack}
 
 Reject(id, cl) == cl # {} => PrintT(<<"REJECT", id, cl>>)
 
